@@ -1799,8 +1799,8 @@ def crashing_rewrite_family(ctx, what):
                 cl.write_tree(root, dict(files, **{"p.patch": patch}))
                 solo = {}
                 for nm in names:
-                    solo[nm] = cl.gopatch(ctx.gopatch, root, ["-p", "p.patch", "--print-only", nm], timeout=60)
-                code, out, err = cl.gopatch(ctx.gopatch, root, ["-p", "p.patch"] + flags + list(names), timeout=60)
+                    solo[nm] = cl.gopatch(ctx.gopatch, root, ["-p", "p.patch", "--print-only", nm], timeout=180)
+                code, out, err = cl.gopatch(ctx.gopatch, root, ["-p", "p.patch"] + flags + list(names), timeout=180)
                 e, so = err.decode("utf-8", "replace"), out.decode("utf-8", "replace")
                 ctx.evaluations += 1
                 ctx.count("crashing_rewrite_runs")
@@ -1850,7 +1850,7 @@ def unwritable_target_family(ctx, what):
         for flags in (["--diff"], ["--print-only"]):
             try:
                 with open("/dev/full", "wb") as full:
-                    r = subprocess.run([ctx.gopatch, "-p", "p.patch"] + flags + ["."], cwd=root, stdout=full, stderr=subprocess.PIPE, timeout=60)
+                    r = subprocess.run([ctx.gopatch, "-p", "p.patch"] + flags + ["."], cwd=root, stdout=full, stderr=subprocess.PIPE, timeout=180)
                 code, err = r.returncode, r.stderr.decode("utf-8", "replace")
             except (OSError, subprocess.TimeoutExpired) as e:
                 code, err = "n/a", str(e)
@@ -3165,7 +3165,7 @@ def c16(ctx):
             for target in (["a.go"], ["b.go"], ["a.go", "b.go"]):
                 before = cl.digest(root)
                 with open("/dev/full", "wb") as full:
-                    r = subprocess.run([ctx.gopatch, "-p", "p.patch"] + mode + target, cwd=root, stdout=full, stderr=subprocess.PIPE, timeout=60)
+                    r = subprocess.run([ctx.gopatch, "-p", "p.patch"] + mode + target, cwd=root, stdout=full, stderr=subprocess.PIPE, timeout=180)
                 e = r.stderr.decode("utf-8", "replace")
                 ctx.evaluations += 1
                 ctx.nontrivial.add("fullout:" + " ".join(mode + target))
@@ -3398,7 +3398,7 @@ def oddly_named_targets(ctx):
                 sep = ["--"] if nm.startswith("-") and nm != "-" else []
                 try:
                     r = subprocess.run([ctx.gopatch] + args + sep + [nm], cwd=root, input=(patch if how == "stdin" else (stdin or "")).encode(),
-                                       stdout=subprocess.PIPE, stderr=subprocess.PIPE, timeout=30)
+                                       stdout=subprocess.PIPE, stderr=subprocess.PIPE, timeout=180)
                     code, err = r.returncode, r.stderr.decode("utf-8", "replace")
                 except subprocess.TimeoutExpired:
                     code, err = "timeout", ""
@@ -3660,7 +3660,7 @@ def loader_tie(ctx, n_quick=60, n_thorough=1500):
         if use_list:
             args += ["-P", "list.txt"]
         sin = (stdin_patch if stdin_ok else "@@\nvar x bogus\n@@\n-a(x)\n+b(x)\n").encode()
-        code, out, err = cl.gopatch(ctx.gopatch, root, args + ["a.go"], stdin=sin, timeout=30)
+        code, out, err = cl.gopatch(ctx.gopatch, root, args + ["a.go"], stdin=sin, timeout=180)
         after = open(os.path.join(root, "a.go")).read()
         shutil.rmtree(root, ignore_errors=True)
         return use_list, code, err.decode("utf-8", "replace"), after
@@ -3913,7 +3913,7 @@ def rejected_patch_whatever_the_targets(ctx):
                     before = cl.digest(root)
                     args = {"flag": ["-p", "bad.patch"], "list": ["-P", "list.txt"], "stdin": []}[how] + flags + tg
                     try:
-                        r = subprocess.run([ctx.gopatch] + args, cwd=root, input=(patch if how == "stdin" else "").encode(), stdout=subprocess.PIPE, stderr=subprocess.PIPE, timeout=30)
+                        r = subprocess.run([ctx.gopatch] + args, cwd=root, input=(patch if how == "stdin" else "").encode(), stdout=subprocess.PIPE, stderr=subprocess.PIPE, timeout=180)
                         code, err = r.returncode, r.stderr.decode("utf-8", "replace")
                     except subprocess.TimeoutExpired:
                         code, err = "timeout", ""
@@ -4851,7 +4851,7 @@ def c10_environment(ctx):
             for n in names:
                 with open(os.path.join(root, n), "w") as f:
                     f.write(files[n])
-            r = subprocess.run([ctx.gopatch, "-p", os.path.join(root, "p.patch")] + args, cwd=cwd, env=env, stdout=subprocess.PIPE, stderr=subprocess.PIPE, timeout=60)
+            r = subprocess.run([ctx.gopatch, "-p", os.path.join(root, "p.patch")] + args, cwd=cwd, env=env, stdout=subprocess.PIPE, stderr=subprocess.PIPE, timeout=180)
             ctx.evaluations += 1
             ctx.count("guards_and_environment")
             ctx.nontrivial.add(f"c10env:{where}:{cwd == root}")
@@ -5223,7 +5223,7 @@ def unstable_intermediate(harness, chain, src):
     with open(pth, "w") as f:
         f.write(json.dumps({"id": "s", "patches": chain, "chain": chain, "src": src}) + "\n")
     try:
-        r = subprocess.run([harness, "stable", "-inputs", pth], stdout=subprocess.PIPE, stderr=subprocess.PIPE, text=True, timeout=60)
+        r = subprocess.run([harness, "stable", "-inputs", pth], stdout=subprocess.PIPE, stderr=subprocess.PIPE, text=True, timeout=180)
         return r.stdout.strip() == "0"
     except Exception:
         return False
